@@ -13,11 +13,23 @@
 //!     skipped (counted) below;
 //!  3. follow-ups: after every step that did not end cleanly the next event of every class is
 //!     executed to see whether the server dies;
-//!  4. stdio: notification histories up to the stdio depth plus their sweeps, and all follow-up
-//!     histories, are replayed against the real `lelwel-ls` in two pacings and compared message
-//!     by message with the in-process replies.
-//! In-process work runs in single-threaded worker subprocesses so that the process-wide panic
-//! hook attributes every panic (also the swallowed ones of analysis threads) to the step running.
+//!  4. stdio: every notification history up to the stdio depth (2: that reaches every canonical
+//!     state and every kind of transition) plus the sweep of all cleanly answered requests, and the
+//!     follow-up histories of every suspicious step, are replayed against the real `lelwel-ls` in
+//!     two pacings (burst: everything written at once, server threads free to run in parallel;
+//!     lock-step: wait for each answer, idle 30 ms after notifications and after a swallowed
+//!     panic) and compared message by message with the in-process replies; the process has to
+//!     answer every id exactly once and exit with status 0 after shutdown/exit.
+//!     What bounds the stdio part is the number of server processes (about 125 sessions per second
+//!     in the sandbox whatever the parallelism), so the quick tier replays one follow-up class per
+//!     suspicious step of document a (rotating through the classes), the thorough tier all classes
+//!     for both documents.
+//! In-process work runs in single-threaded worker subprocesses (pinned to one CPU each) so that the
+//! process-wide panic hook attributes every panic (also the swallowed ones of analysis threads) to
+//! the step running.
+//!
+//! Development aids: VLSP_SKIP=histories,sweeps,followups (partial run, exits 2), VLSP_THREADS=n
+//! (stdio driver threads), VLSP_PIN=cpu (replay only).
 //!
 //! Not generated, because outside the protocol: requests/changes/closes for a document that is
 //! not open (the handlers `unwrap()` a missing map entry), a second `didOpen` of an open document.
@@ -52,15 +64,29 @@ struct Tier {
 
 fn tier_bounds(thorough: bool) -> Tier {
     if thorough {
-        Tier { depth: 4, full_sweep_depth: 2, stdio_depth: 2, stdio_all_follow_up_classes: true, stdio_follow_up_docs: 2 }
+        Tier {
+            depth: 4,
+            full_sweep_depth: 2,
+            stdio_depth: 2,
+            stdio_all_follow_up_classes: true,
+            stdio_follow_up_docs: 2,
+        }
     } else {
-        Tier { depth: 3, full_sweep_depth: 2, stdio_depth: 2, stdio_all_follow_up_classes: false, stdio_follow_up_docs: 1 }
+        Tier {
+            depth: 3,
+            full_sweep_depth: 2,
+            stdio_depth: 2,
+            stdio_all_follow_up_classes: false,
+            stdio_follow_up_docs: 1,
+        }
     }
 }
 
 fn arg_after(flag: &str) -> Option<String> {
     let args: Vec<String> = std::env::args().collect();
-    args.iter().position(|a| a == flag).and_then(|i| args.get(i + 1).cloned())
+    args.iter()
+        .position(|a| a == flag)
+        .and_then(|i| args.get(i + 1).cloned())
 }
 
 fn main() {
@@ -99,9 +125,10 @@ fn unpin() {
 }
 
 fn ls_path() -> PathBuf {
-    let p = PathBuf::from(std::env::var("VERIF_LELWEL_LS").unwrap_or_else(|_| {
-        vcommon::machinery_failure("VERIF_LELWEL_LS is not set (run through /verif/check C20)")
-    }));
+    let p =
+        PathBuf::from(std::env::var("VERIF_LELWEL_LS").unwrap_or_else(|_| {
+            vcommon::machinery_failure("VERIF_LELWEL_LS is not set (run through /verif/check C20)")
+        }));
     if !p.is_file() {
         vcommon::machinery_failure(&format!("{} does not exist", p.display()));
     }
@@ -110,7 +137,12 @@ fn ls_path() -> PathBuf {
 
 /// Reference level for both documents: tables, oracle, list of (doc, text, request) to follow up.
 /// `None` as request = the open itself did not end cleanly.
-fn reference_level(dir: &Path, infos: &[TextInfo], bag: &mut Bag, cnt: &mut Counters) -> (Tables, Vec<(usize, usize, Option<Req>)>) {
+fn reference_level(
+    dir: &Path,
+    infos: &[TextInfo],
+    bag: &mut Bag,
+    cnt: &mut Counters,
+) -> (Tables, Vec<(usize, usize, Option<Req>)>) {
     let tabs = Tables::build(dir, cnt);
     let uris = exec::doc_uris(dir);
     let mut suspicious = vec![];
@@ -140,18 +172,31 @@ fn follow_up_base(doc: usize, ti: usize, r: &Option<Req>) -> Vec<Event> {
 // ---------------------------------------------------------------- worker
 
 fn worker(dir: &Path, spec: &str) {
-    let (i, n) = spec.split_once('/').map(|(a, b)| (a.parse::<usize>().unwrap(), b.parse::<usize>().unwrap())).unwrap();
+    let (i, n) = spec
+        .split_once('/')
+        .map(|(a, b)| (a.parse::<usize>().unwrap(), b.parse::<usize>().unwrap()))
+        .unwrap();
     pin_to_cpu(i);
     let depth: usize = arg_after("--depth").unwrap().parse().unwrap();
     let full_sweep_depth: usize = arg_after("--full-sweep-depth").unwrap().parse().unwrap();
     let out = arg_after("--out").unwrap();
     let infos: Vec<TextInfo> = ALPHABET.iter().map(|(_, t)| TextInfo::new(t)).collect();
-    let mut cnt = Counters { transitions: 0, evaluations: 0, nontrivial: 0 };
+    let mut cnt = Counters {
+        transitions: 0,
+        evaluations: 0,
+        nontrivial: 0,
+    };
     let (tabs, suspicious) = reference_level(dir, &infos, &mut Bag::default(), &mut cnt);
     // the reference level is judged and counted by the parent
-    let mut cnt = Counters { transitions: 0, evaluations: 0, nontrivial: 0 };
+    let mut cnt = Counters {
+        transitions: 0,
+        evaluations: 0,
+        nontrivial: 0,
+    };
     let mut bag = Bag::default();
-    let mut st = HistoryStats { skipped_known_panicking: 0 };
+    let mut st = HistoryStats {
+        skipped_known_panicking: 0,
+    };
     let mut histories = 0u64;
     for (k, h) in notification_histories(depth).iter().enumerate() {
         if k % n == i {
@@ -162,7 +207,15 @@ fn worker(dir: &Path, spec: &str) {
     let mut follow = 0u64;
     for (k, (doc, ti, r)) in suspicious.iter().enumerate() {
         if k % n == i {
-            follow_ups(dir, &follow_up_base(*doc, *ti, r), *doc, ALPHABET[*ti].1, &tabs, &mut bag, &mut cnt);
+            follow_ups(
+                dir,
+                &follow_up_base(*doc, *ti, r),
+                *doc,
+                ALPHABET[*ti].1,
+                &tabs,
+                &mut bag,
+                &mut cnt,
+            );
             follow += 1;
         }
     }
@@ -194,7 +247,11 @@ fn notification_step(uris: &[lsp_types::Url; 2], tabs: &Tables, e: &Event) -> St
         Event::Open { doc, text } | Event::Change { doc, text } => diag_params(&uris[*doc], &tabs.of(*doc, text).open),
         _ => None,
     };
-    Step { event: e.clone(), expect, idle_after: false }
+    Step {
+        event: e.clone(),
+        expect,
+        idle_after: false,
+    }
 }
 
 /// Session for a notification history: the notifications, then every cleanly answered request on
@@ -232,7 +289,13 @@ fn sweep_session(uris: &[lsp_types::Url; 2], tabs: &Tables, h: &[Event]) -> Opti
 
 /// Sessions `pre.. base.. follow-up` for one suspicious step, one per follow-up class
 /// (plus "nothing follows": straight to shutdown).
-fn follow_up_sessions(uris: &[lsp_types::Url; 2], tabs: &Tables, doc: usize, ti: usize, r: &Option<Req>) -> Vec<Session> {
+fn follow_up_sessions(
+    uris: &[lsp_types::Url; 2],
+    tabs: &Tables,
+    doc: usize,
+    ti: usize,
+    r: &Option<Req>,
+) -> Vec<Session> {
     let text = ALPHABET[ti].1;
     let valid = ALPHABET[0].1;
     let other = 1 - doc;
@@ -245,7 +308,11 @@ fn follow_up_sessions(uris: &[lsp_types::Url; 2], tabs: &Tables, doc: usize, ti:
     let req_step = |d: usize, t: &'static str, r: &Req| Step {
         event: Event::Request { doc: d, req: r.clone() },
         // no comparison where the in-process step itself did not end cleanly
-        expect: tabs.of(d, t).get(r).filter(|o| o.clean()).and_then(|o| o.reply.as_ref().map(|r| r.to_json())),
+        expect: tabs
+            .of(d, t)
+            .get(r)
+            .filter(|o| o.clean())
+            .and_then(|o| o.reply.as_ref().map(|r| r.to_json())),
         idle_after: false,
     };
     let base = |pre: Vec<Event>| -> Vec<Step> {
@@ -262,16 +329,28 @@ fn follow_up_sessions(uris: &[lsp_types::Url; 2], tabs: &Tables, doc: usize, ti:
     let mut add = |pre: Vec<Event>, fu: Option<Step>| {
         let mut steps = base(pre);
         steps.extend(fu);
-        sessions.push(Session { steps, origin: Some(origin.clone()) });
+        sessions.push(Session {
+            steps,
+            origin: Some(origin.clone()),
+        });
     };
     add(vec![], None);
     add(vec![], Some(req_step(doc, text, &Req::Formatting)));
     if let Some(r) = r {
         add(vec![], Some(req_step(doc, text, r)));
     }
-    add(vec![], Some(notification_step(uris, tabs, &Event::Change { doc, text })));
+    add(
+        vec![],
+        Some(notification_step(uris, tabs, &Event::Change { doc, text })),
+    );
     add(vec![], Some(notification_step(uris, tabs, &Event::Close { doc })));
-    add(vec![Event::Open { doc: other, text: valid }], Some(req_step(other, valid, &Req::Formatting)));
+    add(
+        vec![Event::Open {
+            doc: other,
+            text: valid,
+        }],
+        Some(req_step(other, valid, &Req::Formatting)),
+    );
     sessions
 }
 
@@ -282,62 +361,75 @@ struct StdioTotals {
 }
 
 /// `pin`: which pacings run with the server pinned to one CPU (see `stdio::run_session`).
-fn run_sessions<F: Fn(usize) -> Vec<Session> + Sync>(ls: &Path, uris: &[lsp_types::Url; 2], n: usize, make: F, pin: &[Pacing], bag: &mut Bag, tot: &mut StdioTotals) {
+fn run_sessions<F: Fn(usize) -> Vec<Session> + Sync>(
+    ls: &Path,
+    uris: &[lsp_types::Url; 2],
+    n: usize,
+    make: F,
+    pin: &[Pacing],
+    bag: &mut Bag,
+    tot: &mut StdioTotals,
+) {
     let cpus = std::thread::available_parallelism().map_or(1, |n| n.get());
     // a machinery failure stops the remaining sessions; those in flight end normally, so no
     // server process is left behind
     let failed: std::sync::Mutex<Option<String>> = std::sync::Mutex::new(None);
     // sessions mostly wait (for the server, for the 30 ms idles): run more of them than there are CPUs
-    let threads = std::env::var("VLSP_THREADS").ok().and_then(|s| s.parse().ok()).unwrap_or(std::thread::available_parallelism().map_or(4, |n| n.get()) * 3);
+    let threads = std::env::var("VLSP_THREADS")
+        .ok()
+        .and_then(|s| s.parse().ok())
+        .unwrap_or(std::thread::available_parallelism().map_or(4, |n| n.get()) * 3);
     let done = std::sync::atomic::AtomicU64::new(0);
     let t0 = std::time::Instant::now();
-    let pool = rayon::ThreadPoolBuilder::new().num_threads(threads).build().expect("thread pool");
-    let results: Vec<(u64, u64, u64, Vec<Violation>)> = pool.install(|| (0..n)
-        .into_par_iter()
-        .map(|k| {
-            let (mut sessions, mut compared, mut died, mut vs) = (0, 0, 0, vec![]);
-            for s in make(k) {
-                for pacing in [Pacing::Burst, Pacing::LockStep] {
-                    if failed.lock().unwrap().is_some() {
-                        return (sessions, compared, died, vs);
-                    }
-                    let cpu = pin.contains(&pacing).then(|| rayon::current_thread_index().unwrap_or(0) % cpus);
-                    let r = match stdio::run_session(ls, uris, &s, pacing, cpu) {
-                        Ok(r) => r,
-                        Err(e) => {
-                            let evs: Vec<Event> = s.steps.iter().map(|st| st.event.clone()).collect();
-                            *failed.lock().unwrap() =
-                                Some(format!("stdio session ({pacing:?}) failed: {e}: {}", truncate(&history_short(&evs), 300)));
+    let pool = rayon::ThreadPoolBuilder::new()
+        .num_threads(threads)
+        .build()
+        .expect("thread pool");
+    let results: Vec<(u64, u64, u64, Vec<Violation>)> = pool.install(|| {
+        (0..n)
+            .into_par_iter()
+            .map(|k| {
+                let (mut sessions, mut compared, mut died, mut vs) = (0, 0, 0, vec![]);
+                for s in make(k) {
+                    for pacing in [Pacing::Burst, Pacing::LockStep] {
+                        if failed.lock().unwrap().is_some() {
                             return (sessions, compared, died, vs);
                         }
-                    };
-                    sessions += 1;
-                    let d = done.fetch_add(1, std::sync::atomic::Ordering::Relaxed) + 1;
-                    if d % 2000 == 0 {
-                        eprintln!("#   {d} stdio sessions after {:.1}s", t0.elapsed().as_secs_f64());
-                    }
-                    compared += r.compared;
-                    died += r.died as u64;
-                    let notes: Vec<Event> = s.steps.iter().map(|st| st.event.clone()).collect();
-                    for f in r.findings {
-                        vs.push(Violation {
-                            key: f.key,
-                            detail: format!("[stdio, pacing {pacing:?}] {}", f.detail),
-                            history: minimal_history(&notes, f.step),
-                        });
+                        let cpu = pin
+                            .contains(&pacing)
+                            .then(|| rayon::current_thread_index().unwrap_or(0) % cpus);
+                        let r = match stdio::run_session(ls, uris, &s, pacing, cpu) {
+                            Ok(r) => r,
+                            Err(e) => {
+                                let evs: Vec<Event> = s.steps.iter().map(|st| st.event.clone()).collect();
+                                *failed.lock().unwrap() = Some(format!(
+                                    "stdio session ({pacing:?}) failed: {e}: {}",
+                                    truncate(&history_short(&evs), 300)
+                                ));
+                                return (sessions, compared, died, vs);
+                            }
+                        };
+                        sessions += 1;
+                        let d = done.fetch_add(1, std::sync::atomic::Ordering::Relaxed) + 1;
+                        if d % 2000 == 0 {
+                            eprintln!("#   {d} stdio sessions after {:.1}s", t0.elapsed().as_secs_f64());
+                        }
+                        compared += r.compared;
+                        died += r.died as u64;
+                        let notes: Vec<Event> = s.steps.iter().map(|st| st.event.clone()).collect();
+                        for f in r.findings {
+                            vs.push(Violation {
+                                key: f.key,
+                                detail: format!("[stdio, pacing {pacing:?}] {}", f.detail),
+                                history: minimal_history(&notes, f.step),
+                            });
+                        }
                     }
                 }
-            }
-            (sessions, compared, died, vs)
-        })
-        .collect());
-    if std::env::var("VLSP_RUSAGE").is_ok() {
-        for (who, name) in [(libc::RUSAGE_SELF, "self"), (libc::RUSAGE_CHILDREN, "children")] {
-            let mut ru: libc::rusage = unsafe { std::mem::zeroed() };
-            unsafe { libc::getrusage(who, &mut ru) };
-            eprintln!("# rusage {name}: user {}.{:03}s sys {}.{:03}s", ru.ru_utime.tv_sec, ru.ru_utime.tv_usec / 1000, ru.ru_stime.tv_sec, ru.ru_stime.tv_usec / 1000);
-        }
-    }
+                (sessions, compared, died, vs)
+            })
+            .collect()
+    });
     if let Some(e) = failed.into_inner().unwrap() {
         vcommon::machinery_failure(&e);
     }
@@ -380,10 +472,17 @@ fn check(dir: &Path) {
     pin_to_cpu(0);
     let infos: Vec<TextInfo> = ALPHABET.iter().map(|(_, t)| TextInfo::new(t)).collect();
     let mut bag = Bag::default();
-    let mut cnt = Counters { transitions: 0, evaluations: 0, nontrivial: 0 };
+    let mut cnt = Counters {
+        transitions: 0,
+        evaluations: 0,
+        nontrivial: 0,
+    };
     let (tabs, suspicious) = reference_level(dir, &infos, &mut bag, &mut cnt);
-    let requests_per_text: Vec<Value> =
-        ALPHABET.iter().enumerate().map(|(i, (id, _))| json!({"text": id, "requests": tabs.t[0][i].reqs.len()})).collect();
+    let requests_per_text: Vec<Value> = ALPHABET
+        .iter()
+        .enumerate()
+        .map(|(i, (id, _))| json!({"text": id, "requests": tabs.t[0][i].reqs.len()}))
+        .collect();
     let mut distinct = BTreeSet::new();
     for doc in 0..2 {
         for tab in tabs.t[doc].iter() {
@@ -395,7 +494,10 @@ fn check(dir: &Path) {
     }
     unpin();
     let t_ref = t0.elapsed().as_secs_f64();
-    eprintln!("# reference level done after {t_ref:.1}s: {} suspicious (doc, text, request) triples", suspicious.len());
+    eprintln!(
+        "# reference level done after {t_ref:.1}s: {} suspicious (doc, text, request) triples",
+        suspicious.len()
+    );
 
     // 2. + 3. history level and follow-ups in worker subprocesses
     // (development aid: VLSP_SKIP=histories,sweeps,followups skips phases; the run is then not a verdict)
@@ -419,7 +521,9 @@ fn check(dir: &Path) {
     let (mut histories, mut follow_origins, mut skipped) = (0u64, 0u64, 0u64);
     for (mut child, out) in children {
         let status = child.wait().expect("wait for worker");
-        let res: Option<Value> = std::fs::read_to_string(&out).ok().and_then(|s| serde_json::from_str(&s).ok());
+        let res: Option<Value> = std::fs::read_to_string(&out)
+            .ok()
+            .and_then(|s| serde_json::from_str(&s).ok());
         let Some(res) = res.filter(|_| status.success()) else {
             vcommon::machinery_failure(&format!("worker {} failed ({status})", out.display()));
         };
@@ -430,7 +534,8 @@ fn check(dir: &Path) {
         cnt.evaluations += res["evaluations"].as_u64().unwrap();
         cnt.nontrivial += res["nontrivial"].as_u64().unwrap();
         for v in res["violations"].as_array().unwrap() {
-            let viol = Violation::from_json(&v["v"]).unwrap_or_else(|| vcommon::machinery_failure("bad worker violation"));
+            let viol =
+                Violation::from_json(&v["v"]).unwrap_or_else(|| vcommon::machinery_failure("bad worker violation"));
             bag.add_n(viol, v["count"].as_u64().unwrap());
         }
         let _ = std::fs::remove_file(&out);
@@ -439,24 +544,46 @@ fn check(dir: &Path) {
     if histories != planned || follow_origins != suspicious.len() as u64 {
         vcommon::machinery_failure(&format!("workers executed {histories} of {planned} histories"));
     }
-    let states: BTreeSet<[Option<&str>; 2]> =
-        notification_histories(tier.depth.min(2)).iter().map(|h| final_state(h)).chain([[None, None]]).collect();
+    let states: BTreeSet<[Option<&str>; 2]> = notification_histories(tier.depth.min(2))
+        .iter()
+        .map(|h| final_state(h))
+        .chain([[None, None]])
+        .collect();
     let t_hist = t0.elapsed().as_secs_f64();
     eprintln!("# {histories} notification histories + follow-ups done after {t_hist:.1}s");
 
     // 4. stdio replay
-    let mut tot = StdioTotals { sessions: 0, compared: 0, died: 0 };
+    let mut tot = StdioTotals {
+        sessions: 0,
+        compared: 0,
+        died: 0,
+    };
     let stdio_hist = notification_histories(if skip.contains("sweeps") { 0 } else { tier.stdio_depth });
     // lock-step sessions run with the server pinned to one CPU, burst sessions with its threads
     // truly parallel
-    run_sessions(&ls, &uris, stdio_hist.len(), |k| sweep_session(&uris, &tabs, &stdio_hist[k]).into_iter().collect(), &[Pacing::LockStep], &mut bag, &mut tot);
+    run_sessions(
+        &ls,
+        &uris,
+        stdio_hist.len(),
+        |k| sweep_session(&uris, &tabs, &stdio_hist[k]).into_iter().collect(),
+        &[Pacing::LockStep],
+        &mut bag,
+        &mut tot,
+    );
     let t_sweep = t0.elapsed().as_secs_f64();
-    eprintln!("# stdio sweeps done after {t_sweep:.1}s: {} sessions, {} answers compared", tot.sessions, tot.compared);
+    eprintln!(
+        "# stdio sweeps done after {t_sweep:.1}s: {} sessions, {} answers compared",
+        tot.sessions, tot.compared
+    );
     let stdio_suspicious: Vec<_> = suspicious.iter().filter(|s| s.0 < tier.stdio_follow_up_docs).collect();
     run_sessions(
         &ls,
         &uris,
-        if skip.contains("followups") { 0 } else { stdio_suspicious.len() },
+        if skip.contains("followups") {
+            0
+        } else {
+            stdio_suspicious.len()
+        },
         |k| {
             let (doc, ti, r) = stdio_suspicious[k];
             let mut sessions = follow_up_sessions(&uris, &tabs, *doc, *ti, r);
@@ -478,12 +605,44 @@ fn check(dir: &Path) {
     };
     let (valid, redef, pratt) = (ALPHABET[0].1, ALPHABET[3].1, ALPHABET[1].1);
     let samples = vec![
-        sample(vec![Event::Open { doc: 0, text: valid }, Event::Request { doc: 0, req: Req::Hover(5, 3) }, Event::Request { doc: 0, req: Req::Definition(5, 6) }]),
-        sample(vec![Event::Open { doc: 1, text: redef }, Event::Change { doc: 1, text: pratt }, Event::Request { doc: 1, req: Req::References(3, 0, true) }]),
-        sample(vec![Event::Open { doc: 0, text: valid }, Event::Open { doc: 1, text: ALPHABET[5].1 }, Event::Close { doc: 0 }, Event::Request { doc: 1, req: Req::Formatting }]),
+        sample(vec![
+            Event::Open { doc: 0, text: valid },
+            Event::Request {
+                doc: 0,
+                req: Req::Hover(5, 3),
+            },
+            Event::Request {
+                doc: 0,
+                req: Req::Definition(5, 6),
+            },
+        ]),
+        sample(vec![
+            Event::Open { doc: 1, text: redef },
+            Event::Change { doc: 1, text: pratt },
+            Event::Request {
+                doc: 1,
+                req: Req::References(3, 0, true),
+            },
+        ]),
+        sample(vec![
+            Event::Open { doc: 0, text: valid },
+            Event::Open {
+                doc: 1,
+                text: ALPHABET[5].1,
+            },
+            Event::Close { doc: 0 },
+            Event::Request {
+                doc: 1,
+                req: Req::Formatting,
+            },
+        ]),
     ];
 
-    let keys: Vec<Value> = bag.by_key.iter().map(|(k, (n, v))| json!({"key": k, "occurrences": n, "minimal_history": history_short(&v.history)})).collect();
+    let keys: Vec<Value> = bag
+        .by_key
+        .iter()
+        .map(|(k, (n, v))| json!({"key": k, "occurrences": n, "minimal_history": history_short(&v.history)}))
+        .collect();
     for (key, (n, v)) in bag.by_key.iter() {
         rep.violation(vcommon::Violation {
             key: key.clone(),
@@ -541,13 +700,19 @@ fn truncate(s: &str, n: usize) -> String {
 fn judge_history(dir: &Path, h: &[Event], bag: &mut Bag) -> Vec<Outcome> {
     let uris = exec::doc_uris(dir);
     let parser_uri = exec::parser_rs_uri(dir);
-    let mut cnt = Counters { transitions: 0, evaluations: 0, nontrivial: 0 };
+    let mut cnt = Counters {
+        transitions: 0,
+        evaluations: 0,
+        nontrivial: 0,
+    };
     let mut infos: HashMap<&'static str, TextInfo> = HashMap::new();
     let mut tables: HashMap<(usize, &'static str), RefTable> = HashMap::new();
     for e in h {
         if let Event::Open { doc, text } | Event::Change { doc, text } = e {
             infos.entry(text).or_insert_with(|| TextInfo::new(text));
-            tables.entry((*doc, text)).or_insert_with(|| build_ref(dir, *doc, text, &mut cnt));
+            tables
+                .entry((*doc, text))
+                .or_insert_with(|| build_ref(dir, *doc, text, &mut cnt));
         }
     }
     let mut ex = Exec::new(dir);
@@ -584,7 +749,11 @@ fn judge_history(dir: &Path, h: &[Event], bag: &mut Bag) -> Vec<Outcome> {
                 tainted[*doc] = (!o.clean()).then(|| origin_key(e, &o));
                 bag.findings(oracle::check_diagnostics(&infos[text], &uris[*doc], &o), prefix);
                 if !same_outcome(&o, &tables[&(*doc, *text)].open) {
-                    bag.add(Violation { key: format!("not-latest-text:{}:diagnostics", e.kind()), detail: o.to_json().to_string(), history: prefix.to_vec() });
+                    bag.add(Violation {
+                        key: format!("not-latest-text:{}:diagnostics", e.kind()),
+                        detail: o.to_json().to_string(),
+                        history: prefix.to_vec(),
+                    });
                 }
             }
             Event::Close { doc } => {
@@ -596,7 +765,13 @@ fn judge_history(dir: &Path, h: &[Event], bag: &mut Bag) -> Vec<Outcome> {
                 let text = state[*doc].unwrap();
                 let tab = &tables[&(*doc, text)];
                 let lookup = |r: &Req| tab.get(r);
-                let cx = Ctx { ti: &infos[text], uri: &uris[*doc], parser_uri: &parser_uri, parser_rs: exec::PARSER_RS, lookup: &lookup };
+                let cx = Ctx {
+                    ti: &infos[text],
+                    uri: &uris[*doc],
+                    parser_uri: &parser_uri,
+                    parser_rs: exec::PARSER_RS,
+                    lookup: &lookup,
+                };
                 bag.findings(oracle::check_reply(&cx, req, &o), prefix);
                 if let Some(ro) = tab.get(req) {
                     if !same_outcome(&o, ro) && ro.clean() {
@@ -626,7 +801,11 @@ fn replay(dir: &Path, path: &Path) -> i32 {
     let mut bag = Bag::default();
     let outs = judge_history(dir, &h, &mut bag);
     for (e, o) in h.iter().zip(outs.iter()) {
-        println!("#   in-process {} -> {}", history_short(std::slice::from_ref(e)), truncate(&o.to_json().to_string(), 300));
+        println!(
+            "#   in-process {} -> {}",
+            history_short(std::slice::from_ref(e)),
+            truncate(&o.to_json().to_string(), 300)
+        );
     }
     // stdio: same history, expected answers = the in-process ones; origin = first unclean step
     let uris = exec::doc_uris(dir);
@@ -641,17 +820,32 @@ fn replay(dir: &Path, path: &Path) -> i32 {
         if !o.clean() && origin.is_none() {
             origin = Some(origin_key(e, o));
         }
-        steps.push(Step { event: e.clone(), expect, idle_after: h.len() <= 50 });
+        steps.push(Step {
+            event: e.clone(),
+            expect,
+            idle_after: h.len() <= 50,
+        });
     }
     let session = Session { steps, origin };
     let ls = ls_path();
     for pacing in [Pacing::Burst, Pacing::LockStep] {
         let pin = std::env::var("VLSP_PIN").ok().and_then(|s| s.parse().ok());
         let t = std::time::Instant::now();
-        let r = stdio::run_session(&ls, &uris, &session, pacing, pin).unwrap_or_else(|e| vcommon::machinery_failure(&e));
-        println!("#   stdio {pacing:?}: exit {:?}, {} answers compared, {} finding(s), {:.3}s", r.exit_code, r.compared, r.findings.len(), t.elapsed().as_secs_f64());
+        let r =
+            stdio::run_session(&ls, &uris, &session, pacing, pin).unwrap_or_else(|e| vcommon::machinery_failure(&e));
+        println!(
+            "#   stdio {pacing:?}: exit {:?}, {} answers compared, {} finding(s), {:.3}s",
+            r.exit_code,
+            r.compared,
+            r.findings.len(),
+            t.elapsed().as_secs_f64()
+        );
         for f in r.findings {
-            bag.add(Violation { key: f.key, detail: format!("[stdio, pacing {pacing:?}] {}", f.detail), history: h.clone() });
+            bag.add(Violation {
+                key: f.key,
+                detail: format!("[stdio, pacing {pacing:?}] {}", f.detail),
+                history: h.clone(),
+            });
         }
     }
     for (k, (n, v)) in bag.by_key.iter() {
